@@ -86,6 +86,25 @@ reg('C06', 'model_checking',
     'a reference model', 'E2-history-bfs')
 
 
+reg('C10', 'model_checking',
+    'The real Solver.solve run to completion for the full product of time '
+    'step x final time x print frequency x damping length x max_steps x '
+    'every sorted subset (size<=3) of a per-(dt,tf) candidate set of '
+    'requested output times (inside the first/last step, on a step time, '
+    '+-1 ulp, accumulated vs exact multiples, clustered, at and beyond tf), '
+    'plus, with adaptive stepping, every sequence of environment answers '
+    'with <=2 (quick) / <=3 (thorough) non-default answers (deviation-'
+    'bounded exploration). Every trace is judged by an oracle written from '
+    'the statement. The landing logic is epsilon arithmetic on a handful of '
+    'state variables: its bugs need a specific alignment of times, which '
+    'the lattice contains by construction.',
+    'Trusted: the oracle in checks/c10_solver_loop.py (readings recorded in '
+    'DESIGN.md C10); stub integrator and recorder stand in for integration '
+    'and file output. Values outside the lattice are not covered.',
+    'deviation-bounded exhaustive exploration of the real solver loop '
+    'against a trace oracle', 'E3-deviation-bounded-environment')
+
+
 def main():
     props = [json.loads(l) for l in open(os.path.join(V, 'properties.jsonl'))]
     checks = []
